@@ -363,6 +363,15 @@ func c19Schedules(r *ck.Run) {
 			Want:   []c19Want{{s3event.EventObjectRemovedDelete, "evk/first", -1, ""}, {s3event.EventObjectCreatedPut, "zzzzzzzzzzzzzzzzzzzzzz", int64(len(b2)), etagOf(b2)}},
 			Bkts:   []string{"bk-main", "evb-second"}},
 	}
+	// a batch delete sends one notification per key from goroutines started in a loop: each must carry its own key
+	pairs = append(pairs, pair{Name: "DeleteObjects a,b,c ; PUT d",
+		First: func() *gw.Req {
+			return NewReq("POST", "/"+w.Bucket, "delete", nil, []byte("<Delete><Object><Key>evk/first</Key></Object><Object><Key>evk/second</Key></Object><Object><Key>evk/third</Key></Object></Delete>"))
+		},
+		Second: func() *gw.Req { return NewReq("PUT", gw.ObjPath("evb-second", "after-the-batch"), "", nil, b2) },
+		Want: []c19Want{{s3event.EventObjectRemovedDeleteObjects, "evk/first", -1, ""}, {s3event.EventObjectRemovedDeleteObjects, "evk/second", -1, ""}, {s3event.EventObjectRemovedDeleteObjects, "evk/third", -1, ""},
+			{s3event.EventObjectCreatedPut, "after-the-batch", int64(len(b2)), etagOf(b2)}},
+		Bkts: []string{"bk-main", "evb-second"}})
 	for _, pr := range pairs {
 		var ctx fasthttp.RequestCtx
 		var req0 fasthttp.Request
@@ -377,6 +386,8 @@ func c19Schedules(r *ck.Run) {
 			Must(w.F.CreateBucket(gw.Root, "evb-second"), "second bucket")
 			Must(w.F.Put(gw.Root, "evb-second", "warm", []byte("w")), "warm")
 			Must(w.F.Put(gw.Root, w.Bucket, "evk/first", []byte("seed")), "seed")
+			Must(w.F.Put(gw.Root, w.Bucket, "evk/second", []byte("seed2")), "seed")
+			Must(w.F.Put(gw.Root, w.Bucket, "evk/third", []byte("seed3")), "seed")
 			sched.SyncGo = false
 			sink.take()
 			return []func(){func() {
@@ -417,7 +428,7 @@ func c19Schedules(r *ck.Run) {
 					if g.EventName == wn.Event && g.S3.Object.Key == wn.Key {
 						ok = true
 						bk := pr.Bkts[0]
-						if wn.Key != "evk/first" {
+						if !strings.HasPrefix(wn.Key, "evk/") {
 							bk = pr.Bkts[len(pr.Bkts)-1]
 						}
 						if g.S3.Bucket.Name != bk {
